@@ -304,6 +304,9 @@ AMBIENT = [
     (re.compile(r'^core::fmt::Pointer::fmt$'), 'address formatting'),
     (re.compile(r'^getrandom::'), 'getrandom'),
     (re.compile(r'^uuid::'), 'uuid'),
+    (re.compile(r'^core::task::wake::Waker::(data|as_raw|vtable)$|^core::task::wake::RawWaker::(data|vtable)$'), 'address of a waker'),
+    (re.compile(r'^alloc::(sync::Arc|rc::Rc|sync::Weak|rc::Weak)::(as_ptr|into_raw)$|^core::ptr::\w+::<impl \*(const|mut) T>::(addr|expose_provenance)$|'
+                r'^core::ptr::(from_ref|from_mut|addr_of)$'), 'memory address'),
     (re.compile(r'^futures_util::async_await::random::'), 'futures select!/join-style macros start from a pseudo-random branch; use select_biased!'),
     (re.compile(r'^(fastrand|oorandom|nanorand|tinyrand)::'), 'pseudo-random generator'),
     (re.compile(r'^std::collections::hash::map::RandomState|^std::hash::random::DefaultHasher::new|^ahash::random_state'), 'randomly seeded hasher'),
@@ -398,6 +401,16 @@ def check(ctx, rep):
                                 'hash-ordered container (%s) handed to %s at %s: its iteration order (random per process) can reach an '
                                 'order-sensitive consumer without passing any of the analysed iteration calls' % (hashed[0][:80], cn, f.where(bb)),
                                 site='%s|%s@%s' % (f.kpath, last_seg(cn), cfg))
+                # R11.b (addresses as order): an ordered container or a sort keyed by raw pointers orders by memory address
+                for bb, t in f.calls():
+                    cn = norm(t.get('callee') or '')
+                    ordered_ = cn.startswith(('alloc::collections::btree::', 'alloc::collections::binary_heap::')) or \
+                        bool(re.search(r'::sort(_\w+)?$|::cmp$|::partial_cmp$|::binary_search\w*$', cn))
+                    ptrs_ = [x for x in (t.get('targs') or []) if re.match(r'^\*(const|mut) ', x)]
+                    if ordered_ and ptrs_:
+                        rep.bad('R11.b', '%s|%s|ordered-by-address' % (f.kpath, last_seg(cn)),
+                                'values are ordered by a raw pointer (%s) at %s: the order follows memory addresses, which differ from run to run'
+                                % (ptrs_[0], f.where(bb)))
                 # R11.b
                 hits = list(ambient_hits(f))
                 for bb, what in hits:
